@@ -196,16 +196,318 @@ Section Seq.
         rewrite K in IN. apply in_chain in IN. destruct IN as [t [r [N1 [N2 [E1 E2]]]]].
         apply app_inv_head in E2. rewrite E2 in E1.
         assert (X : t ++ [] = t ++ r) by (rewrite app_nil_r; exact E1). apply app_inv_head in X. congruence. }
-      rewrite LN, h5path_eqb_refl. reflexivity.
+      match goal with |- match ?X with _ => _ end = _ => replace X with (@None (h5obj C)) by (symmetry; exact LN) end.
+      rewrite h5path_eqb_refl. reflexivity.
     - intros t r N1 N2 E.
       rewrite lookup_app_none by (apply AB; assumption).
       assert (IN : In (g ++ t) (map fst grp)) by (rewrite K; apply in_chain; exists t, r; auto).
       assert (LG : st_lookup grp (g ++ t) = Some OGroup) by (apply lookup_groups_in; assumption).
       clear - LG. induction grp as [|[k x] grp IH]; simpl in *; [discriminate|].
       destruct (h5path_eqb k (g ++ t)); [exact LG | auto].
-    - intros q NQ. apply lookup_app_notin. rewrite KEYS. intros I. apply in_app_or in I. destruct I as [I|[I|[]]].
+    - intros q NQ. apply lookup_app_notin. intros I0.
+      assert (I : In q (chain g p ++ [g ++ p])) by (rewrite <- KEYS; exact I0).
+      apply in_app_or in I. destruct I as [I|[I|[]]].
       + apply in_chain in I. destruct I as [t [r [N1 [N2 [E1 E2]]]]]. exact (NQ t r N1 E1 E2).
       + apply (NQ p [] NEP); [rewrite app_nil_r; reflexivity | exact (eq_sym I)].
+  Qed.
+
+
+  Lemma walk_post_lift : forall (st st' st1 : store) g c t shape,
+    t <> [] ->
+    walk_post st' (g ++ [c]) t shape st1 ->
+    st_lookup st' (g ++ [c]) = Some OGroup ->
+    (forall q, q <> g ++ [c] -> st_lookup st' q = st_lookup st q) ->
+    walk_post st g (c :: t) shape st1.
+  Proof.
+    intros st st' st1 g c t shape NT [PA [PB [PC PD]]] LG SAME.
+    split; [|split; [|split; [|exact PD]]].
+    - rewrite <- PA. f_equal. rewrite <- app_assoc. reflexivity.
+    - intros t0 r N1 N2 E. destruct t0 as [|x t0]; [congruence|]. inversion E; subst x.
+      destruct t0 as [|y t0].
+      + rewrite PC; [exact LG|]. intros t1 r1 N3 E1 E2.
+        assert (X : (g ++ [c]) ++ [] = (g ++ [c]) ++ t1) by (rewrite app_nil_r; exact E2).
+        apply app_inv_head in X. congruence.
+      + replace (g ++ c :: y :: t0) with ((g ++ [c]) ++ y :: t0) by (rewrite <- app_assoc; reflexivity).
+        apply (PB (y :: t0) r); [discriminate | assumption | assumption].
+    - intros q NQ. rewrite PC.
+      + apply SAME. apply (NQ [c] t); [discriminate | reflexivity].
+      + intros t1 r1 N3 E1 E2. apply (NQ (c :: t1) r1); [discriminate | simpl; f_equal; exact E1 |].
+        rewrite E2, <- app_assoc. reflexivity.
+  Qed.
+
+  Lemma walk_closed : forall p (st : store) g shape,
+    Forall plain_comp p -> p <> [] -> shape <> [] -> closed st -> st_is_group st g = true ->
+    if walk_ok st g p
+    then exists st1, walk cd p st g shape false = (st1, IoRet (Some (g ++ p)) false) /\ walk_post st g p shape st1
+    else walk cd p st g shape false = (st, IoRet None true).
+  Proof.
+    induction p as [|c t IH]; intros st g shape F NEP NES CL G; [congruence|].
+    inversion F as [|x l PC Ft]; subst. rewrite walk_cons. unfold cd_step.
+    destruct t as [|c' t'].
+    - (* leaf *)
+      destruct shape as [|n shape]; [congruence|].
+      unfold h5_create_dataset. rewrite create_target_plain by assumption. rewrite G. simpl walk_ok.
+      destruct (st_lookup st (g ++ [c])) eqn:LK; [reflexivity|].
+      eexists. split; [reflexivity|].
+      split; [|split; [|split]].
+      + rewrite lookup_app_new, LK, h5path_eqb_refl. reflexivity.
+      + intros t r N1 N2 E. destruct t as [|x t]; [congruence|]. inversion E.
+        destruct t; [destruct r; [congruence|discriminate]|discriminate].
+      + intros q NQ. rewrite lookup_app_new. destruct (st_lookup st q); [reflexivity|].
+        rewrite h5path_eqb_neq; [reflexivity|]. intros E. apply (NQ [c] []); [discriminate|reflexivity|exact (eq_sym E)].
+      + apply closed_add; assumption.
+    - (* group step *)
+      assert (NT : c' :: t' <> []) by discriminate.
+      rewrite open_group_plain by assumption.
+      assert (GNE : g ++ [c] <> []) by (destruct g; discriminate).
+      change (walk_ok st g (c :: c' :: t')) with
+        (match st_lookup st (g ++ [c]) with Some OGroup => walk_ok st (g ++ [c]) (c' :: t') | Some (ODataset _) => false | None => true end).
+      destruct (st_lookup st (g ++ [c])) as [[|d0]|] eqn:LK.
+      + (* an existing group *)
+        assert (G' : st_is_group st (g ++ [c]) = true).
+        { unfold st_is_group. destruct (g ++ [c]) eqn:E; [congruence|]. rewrite LK. reflexivity. }
+        rewrite G'. specialize (IH st (g ++ [c]) shape Ft NT NES CL G').
+        destruct (walk_ok st (g ++ [c]) (c' :: t')).
+        * destruct IH as [st1 [W P]]. exists st1. split.
+          -- rewrite W. rewrite <- app_assoc. reflexivity.
+          -- eapply walk_post_lift; eauto.
+        * exact IH.
+      + (* a dataset in the way *)
+        assert (G' : st_is_group st (g ++ [c]) = false).
+        { unfold st_is_group. destruct (g ++ [c]) eqn:E; [congruence|]. rewrite LK. reflexivity. }
+        rewrite G'. unfold h5_create_group. rewrite create_target_plain by assumption. rewrite G, LK. reflexivity.
+      + (* absent: create the group, everything below is fresh *)
+        assert (G' : st_is_group st (g ++ [c]) = false).
+        { unfold st_is_group. destruct (g ++ [c]) eqn:E; [congruence|]. rewrite LK. reflexivity. }
+        rewrite G'. unfold h5_create_group. rewrite create_target_plain by assumption. rewrite G, LK.
+        set (st' := st ++ [(g ++ [c], OGroup)]).
+        assert (CL' : closed st') by (apply closed_add; assumption).
+        assert (LG : st_lookup st' (g ++ [c]) = Some OGroup)
+          by (unfold st'; rewrite lookup_app_new, LK, h5path_eqb_refl; reflexivity).
+        assert (G2 : st_is_group st' (g ++ [c]) = true).
+        { unfold st_is_group. destruct (g ++ [c]) eqn:E; [congruence|]. rewrite LG. reflexivity. }
+        assert (AB' : forall r, r <> [] -> st_lookup st' ((g ++ [c]) ++ r) = None).
+        { intros r NR. unfold st'. rewrite lookup_app_new.
+          rewrite (closed_absent_below st (g ++ [c]) CL GNE LK r).
+          rewrite h5path_eqb_neq; [reflexivity|]. intros E.
+          assert (X : (g ++ [c]) ++ [] = (g ++ [c]) ++ r) by (rewrite app_nil_r; exact E).
+          apply app_inv_head in X. congruence. }
+        destruct (walk_fresh_post (c' :: t') st' (g ++ [c]) shape Ft NT NES CL' G2 AB') as [st1 [W P]].
+        exists st1. split.
+        * cbv beta. fold st'. etransitivity; [exact W|]. rewrite <- app_assoc. reflexivity.
+        * eapply walk_post_lift; eauto.
+          intros q NQ. unfold st'. rewrite lookup_app_new. destruct (st_lookup st q); [reflexivity|].
+          rewrite h5path_eqb_neq by congruence. reflexivity.
+  Qed.
+
+
+  (** ** The abstract specification *)
+
+  Record afile := { af_ds : h5path -> option (harr V); af_grp : h5path -> bool }.
+  Definition af_empty : afile := {| af_ds := fun _ => None; af_grp := fun _ => false |}.
+
+  Definition is_none {A} (o : option A) : bool := match o with None => true | Some _ => false end.
+
+  (** A new dataset can be created at g ++ p: no dataset on the way, the leaf is new. *)
+  Fixpoint a_creatable (m : afile) (g p : h5path) : bool :=
+    match p with
+    | [] => false
+    | [c] => is_none (af_ds m (g ++ [c])) && negb (af_grp m (g ++ [c]))
+    | c :: t => is_none (af_ds m (g ++ [c])) && (if af_grp m (g ++ [c]) then a_creatable m (g ++ [c]) t else true)
+    end.
+
+  Fixpoint prefixb (q p : h5path) : bool :=
+    match q, p with
+    | [], _ => true
+    | x :: q', y :: p' => h5name_eqb x y && prefixb q' p'
+    | _ :: _, [] => false
+    end.
+  Definition proper_prefixb (q p : h5path) : bool :=
+    negb (h5path_eqb q []) && prefixb q p && negb (h5path_eqb q p).
+
+  Definition a_put (m : afile) (p : h5path) (x : harr V) (new : bool) : afile :=
+    {| af_ds := fun q => if h5path_eqb q p then Some x else af_ds m q;
+       af_grp := fun q => af_grp m q || (new && proper_prefixb q p) |}.
+
+  Definition zeros_arr (shape : list Z) : harr V :=
+    {| ha_dims := shape; ha_elems := repeat (vzero cd) (Z.to_nat (h5_product shape)) |}.
+
+  Fixpoint in_block (loc shape idx : list Z) : bool :=
+    match loc, shape, idx with
+    | [], [], [] => true
+    | l :: loc', sh :: shape', i :: idx' => (l <=? i) && (i <? l + sh) && in_block loc' shape' idx'
+    | _, _, _ => false
+    end.
+  Fixpoint zsub (idx loc : list Z) : list Z :=
+    match idx, loc with
+    | i :: idx', l :: loc' => (i - l) :: zsub idx' loc'
+    | _, _ => []
+    end.
+
+  (** [x] with the block [loc, loc + shape a) overwritten by [a], per index. *)
+  Definition blit (x : harr V) (loc : list Z) (a : harr V) : harr V :=
+    {| ha_dims := ha_dims x;
+       ha_elems := map (fun idx =>
+                     if in_block loc (ha_dims a) idx
+                     then nth (Z.to_nat (h5_linear (ha_dims a) (zsub idx loc))) (ha_elems a) (vzero cd)
+                     else nth (Z.to_nat (h5_linear (ha_dims x) idx)) (ha_elems x) (vzero cd))
+                   (h5_all_indices (ha_dims x)) |}.
+
+  (** Operations, each with the plain spelling [s] of its path [p]. *)
+  Inductive sop :=
+  | SCreate (s : list Z) (p : h5path) (shape : list Z)
+  | SWrite (s : list Z) (p : h5path) (a : harr V)
+  | SWriteSlice (s : list Z) (p : h5path) (a : harr V) (loc : list Z)
+  | SLoad (s : list Z) (p : h5path) (sl : option (list dimsel))
+  | SShape (s : list Z) (p : h5path).
+
+  Definition to_op (o : sop) : @io_op V :=
+    match o with
+    | SCreate s _ shape => OpCreate {| h_dataset := s; h_slice := None |} shape false
+    | SWrite s _ a => OpWrite {| h_dataset := s; h_slice := None |} a
+    | SWriteSlice s _ a loc => OpWriteSlice {| h_dataset := s; h_slice := None |} a loc
+    | SLoad s _ sl => OpLoad {| h_dataset := s; h_slice := sl |}
+    | SShape s _ => OpShape {| h_dataset := s; h_slice := None |}
+    end.
+
+  Definition ok_unit : @io_obs V := ObsUnit (IoRet (Some tt) false).
+  Definition err_unit : @io_obs V := ObsUnit (IoRet None true).
+
+  Definition a_step (m : afile) (o : sop) : afile * @io_obs V :=
+    match o with
+    | SCreate _ p shape =>
+        match af_ds m p with
+        | Some x => (m, if zlist_eqb (ha_dims x) shape then ok_unit else err_unit)
+        | None => if a_creatable m [] p then (a_put m p (zeros_arr shape) true, ok_unit) else (m, err_unit)
+        end
+    | SWrite _ p a =>
+        match af_ds m p with
+        | Some x => if zlist_eqb (ha_dims x) (ha_dims a) then (a_put m p a false, ok_unit) else (m, err_unit)
+        | None => if a_creatable m [] p then (a_put m p a true, ok_unit) else (m, err_unit)
+        end
+    | SWriteSlice _ p a loc =>
+        match af_ds m p with
+        | Some x => (a_put m p (blit x loc a) false, ok_unit)
+        | None => (m, err_unit)
+        end
+    | SLoad _ p sl =>
+        match af_ds m p with
+        | Some x =>
+            (m, ObsArr (IoRet (Some (if has_selection sl
+                                     then mem_slice (vzero cd) x (slice_triples (match sl with Some l => l | None => [] end) (ha_dims x))
+                                     else x)) false))
+        | None => (m, ObsArr (IoRet None true))
+        end
+    | SShape _ p =>
+        match af_ds m p with
+        | Some x => (m, ObsShape (IoRet (Some (ha_dims x)) false))
+        | None => (m, ObsShape (IoRet None true))
+        end
+    end.
+
+  (** What is asked of the arguments (in the abstract state the operation runs in). *)
+  Definition sop_ok (m : afile) (o : sop) : Prop :=
+    match o with
+    | SCreate s p shape => plain_name s p /\ shape <> [] /\ Forall u64 shape
+    | SWrite s p a => plain_name s p /\ arr_wf a /\ ha_elems a <> []
+    | SWriteSlice s p a loc =>
+        plain_name s p /\ arr_wf a /\ length loc = length (ha_dims a) /\ Forall u64 loc /\
+        (forall x, af_ds m p = Some x -> block_fits (ha_dims x) loc (ha_dims a))
+    | SLoad s p sl =>
+        plain_name s p /\
+        (forall x l, af_ds m p = Some x -> sl = Some l -> has_selection sl = true ->
+                     Forall2 (fun n d => dimsel_wf d) (ha_dims x) l)
+    | SShape s p => plain_name s p
+    end.
+
+  Fixpoint a_run (m : afile) (ops : list sop) : afile * list (@io_obs V) :=
+    match ops with
+    | [] => (m, [])
+    | o :: r => let (m1, b) := a_step m o in let (m2, bs) := a_run m1 r in (m2, b :: bs)
+    end.
+
+  Fixpoint sops_ok (m : afile) (ops : list sop) : Prop :=
+    match ops with
+    | [] => True
+    | o :: r => sop_ok m o /\ sops_ok (fst (a_step m o)) r
+    end.
+
+  (** ** The refinement relation *)
+  Definition get_ds (st : store) (q : h5path) : option (h5dataset C) :=
+    match st_lookup st q with Some (ODataset d) => Some d | _ => None end.
+
+  Definition Rst (st : store) (m : afile) : Prop :=
+    store_wf st /\ closed st /\
+    (forall q, af_ds m q = option_map (ds_view cd) (get_ds st q)) /\
+    (forall q, q <> [] -> (af_grp m q = true <-> st_lookup st q = Some OGroup)).
+
+  Definition R (f : @h5file C) (m : afile) : Prop :=
+    match f with
+    | None => (forall q, af_ds m q = None) /\ (forall q, af_grp m q = false)
+    | Some st => Rst st m
+    end.
+
+
+  Lemma R_none_empty : forall m, R None m -> Rst [] m.
+  Proof.
+    intros m [D G]. split; [intros q d L; discriminate|]. split; [intros q c o L; discriminate|].
+    split; [intros q; rewrite D; reflexivity|]. intros q _. rewrite G. simpl. split; discriminate.
+  Qed.
+
+  Lemma Rst_grp_false : forall st m q, Rst st m -> q <> [] -> st_lookup st q <> Some OGroup -> af_grp m q = false.
+  Proof.
+    intros st m q [_ [_ [_ G]]] NE N. destruct (af_grp m q) eqn:E; [|reflexivity].
+    apply (G q NE) in E. contradiction.
+  Qed.
+
+  Lemma Rst_grp_true : forall st m q, Rst st m -> q <> [] -> st_lookup st q = Some OGroup -> af_grp m q = true.
+  Proof. intros st m q [_ [_ [_ G]]] NE L. apply (G q NE). exact L. Qed.
+
+  Lemma creatable_walk_ok : forall st m, Rst st m -> forall p g, a_creatable m g p = walk_ok st g p.
+  Proof.
+    intros st m RS. pose proof RS as [_ [_ [D _]]].
+    induction p as [|c t IH]; intros g; [reflexivity|].
+    assert (GNE : g ++ [c] <> []) by (destruct g; discriminate).
+    assert (DS : af_ds m (g ++ [c]) = option_map (ds_view cd) (get_ds st (g ++ [c]))) by apply D.
+    unfold get_ds in DS.
+    destruct t as [|c' t'].
+    - simpl. destruct (st_lookup st (g ++ [c])) as [[|d0]|] eqn:LK; simpl in DS; rewrite DS; simpl.
+      + rewrite (Rst_grp_true _ _ _ RS GNE LK). reflexivity.
+      + reflexivity.
+      + rewrite (Rst_grp_false st m _ RS GNE) by (rewrite LK; discriminate). reflexivity.
+    - change (a_creatable m g (c :: c' :: t')) with
+        (is_none (af_ds m (g ++ [c])) && (if af_grp m (g ++ [c]) then a_creatable m (g ++ [c]) (c' :: t') else true)).
+      change (walk_ok st g (c :: c' :: t')) with
+        (match st_lookup st (g ++ [c]) with Some OGroup => walk_ok st (g ++ [c]) (c' :: t') | Some (ODataset _) => false | None => true end).
+      destruct (st_lookup st (g ++ [c])) as [[|d0]|] eqn:LK; simpl in DS; rewrite DS; simpl.
+      + rewrite (Rst_grp_true _ _ _ RS GNE LK). apply IH.
+      + reflexivity.
+      + rewrite (Rst_grp_false st m _ RS GNE) by (rewrite LK; discriminate). reflexivity.
+  Qed.
+
+  (** [openOrCreateDataset] on a closed, well-formed store: complete description. *)
+  Lemma ocd_full : forall st s p shape,
+    store_wf st -> closed st -> plain_name s p -> shape <> [] -> Forall u64 shape ->
+    match st_lookup st p with
+    | Some (ODataset d0) =>
+        open_or_create_dataset cd st s shape false
+        = (st, if zlist_eqb (ds_dims d0) shape then IoRet (Some p) false else IoRet None true)
+    | _ =>
+        if walk_ok st [] p
+        then exists st1, open_or_create_dataset cd st s shape false = (st1, IoRet (Some p) false)
+                         /\ walk_post st [] p shape st1
+        else open_or_create_dataset cd st s shape false = (st, IoRet None true)
+    end.
+  Proof.
+    intros st s p shape WF CL PN NES U.
+    unfold open_or_create_dataset. rewrite (plain_open_dataset _ _ _ PN).
+    pose proof PN as [PNE [PF _]].
+    pose proof (walk_closed p st [] shape PF PNE NES CL eq_refl) as WC.
+    destruct (st_lookup st p) as [[|d0]|] eqn:LK.
+    - rewrite (cdr_walk_split cd _ _ _ _ _ PN). exact WC.
+    - destruct (WF _ _ LK) as [DNE _]. destruct (ds_dims d0) eqn:D; [congruence|]. rewrite <- D.
+      destruct (zlist_eqb (ds_dims d0) shape); reflexivity.
+    - rewrite (cdr_walk_split cd _ _ _ _ _ PN). exact WC.
   Qed.
 
 End Seq.
